@@ -382,7 +382,7 @@ def jobs(tier, seed):
         for sk in skeletons(ALPHABET, 2):
             if tier == "quick" and c02.heavy(sk):
                 continue
-            out.append(dict(common, label="life%s:%s" % (ms, ",".join(sk)), harness="lifecycle", args={"mnems": sk, "mode": mode}, cost=10, validate_every=2))
+            out.append(dict(common, label="life%s:%s" % (ms, ",".join(sk)), harness="lifecycle", args={"mnems": sk, "mode": mode}, cost=10, validate_every=2, optional=c02.heavy(sk)))
         if tier == "thorough":
             for sk in skeletons(REDUCED, 3):
                 out.append(dict(common, label="life%s:%s" % (ms, ",".join(sk)), harness="lifecycle", args={"mnems": sk, "mode": mode}, cost=30, validate_every=5, optional=True))
